@@ -303,13 +303,14 @@ class SgzConverter(SgzReader):
 
         # seimcic-zfp stores the binary header from the source SEG-Y file.
         # In case someone forgot to do this, give them IBM float
-        data_sample_format_code = bytes_to_int(
-            self.headerbytes[DISK_BLOCK_BYTES+3225: DISK_BLOCK_BYTES+3227])
+        # The format code is the big-endian 16-bit field at bytes 3225-3226 (1-based) of the SEG-Y file header
+        format_code_bytes = slice(DISK_BLOCK_BYTES + 3224, DISK_BLOCK_BYTES + 3226)
+        data_sample_format_code = int.from_bytes(self.headerbytes[format_code_bytes], 'big')
         if data_sample_format_code in [1, 5]:
             spec.format = data_sample_format_code
         else:
             new_headerbytes = bytearray(self.headerbytes)
-            new_headerbytes[DISK_BLOCK_BYTES + 3225: DISK_BLOCK_BYTES + 3227] = int_to_bytes(1)
+            new_headerbytes[format_code_bytes] = (1).to_bytes(2, 'big')
             self.headerbytes = bytes(new_headerbytes)
             spec.format = 1
 
